@@ -179,6 +179,17 @@ func coerce(v Val, t types.Type) Val {
 
 type nilConst struct{}
 
+// specMapKey: a key expression of a specification as a value of the map's key type (a concrete value used as
+// the key of a map keyed by an interface type is boxed, as the compiler does).
+func (ex *Exec) specMapKey(env *Env, k Val, kt types.Type) Val {
+	if _, isIface := kt.Underlying().(*types.Interface); isIface && k.Const == nil && k.T != nil {
+		if _, already := k.T.Underlying().(*types.Interface); !already {
+			return ex.makeInterface(env.st, k, kt)
+		}
+	}
+	return coerce(k, kt)
+}
+
 func defaultType(v Val) Val {
 	if v.Const == nil {
 		return v
@@ -842,7 +853,7 @@ func (ex *Exec) evalCall(env *Env, x *ECall) Val {
 		if !ok {
 			sfail("has() on %s", m.T)
 		}
-		k := coerce(ex.eval(env, args[1]), mt.Key())
+		k := ex.specMapKey(env, ex.eval(env, args[1]), mt.Key())
 		_, in := ex.mapGet(env.st, m, k.L)
 		return scalar(bt, And(in, Not(Eq(m.Term(), IntC(0)))))
 	case "washas", "wasat":
@@ -852,7 +863,7 @@ func (ex *Exec) evalCall(env *Env, x *ECall) Val {
 		if !ok {
 			sfail("%s() on %s", name, m.T)
 		}
-		k := coerce(ex.eval(env, args[1]), mt.Key())
+		k := ex.specMapKey(env, ex.eval(env, args[1]), mt.Key())
 		v, in := ex.mapGet(env.old, m, k.L)
 		if name == "washas" {
 			return scalar(bt, And(in, Not(Eq(m.Term(), IntC(0)))))
